@@ -434,6 +434,36 @@ pub fn blob_block_read(
     })
 }
 
+/// Fixed-width char block (`char(width)`): build from `items`, skip `skip` rows, then read batches
+/// of `batch` rows until exhausted.
+pub fn char_block_read(
+    items: &[String],
+    width: usize,
+    skip: usize,
+    batch: usize,
+) -> Result<Vec<Option<String>>, String> {
+    use super::block::{PlainCharBlockBuilder, PlainCharBlockIterator};
+    guarded(|| {
+        let mut b = PlainCharBlockBuilder::new(1 << 20, width as u64);
+        for it in items {
+            b.append(Some(it.as_str()));
+        }
+        let data = bytes::Bytes::from(b.finish());
+        let mut iter = PlainCharBlockIterator::new(data, items.len(), width);
+        let mut out = vec![];
+        drain(
+            &mut iter,
+            skip,
+            batch,
+            StringArrayBuilder::new,
+            |a: crate::array::StringArray| {
+                out.extend(a.to_vec().into_iter().map(|x| x.map(|s| s.to_string())))
+            },
+        );
+        Ok(out)
+    })
+}
+
 // ---------------------------------------------------------------- SQL sessions
 
 /// Run `sqls` one after another against a fresh database and return, per statement, the rows as
